@@ -134,7 +134,8 @@ def _respell(cmd, argv, cwd):
 
 
 VERBOSE = {"rng": None, "rate": 0.15}
-HANG_SECONDS = 120.0
+HANG_SECONDS = 60.0  # first look at the clock
+HANG_CPU_SECONDS = 45.0  # CPU time one command may burn (the slowest legitimate one, a 4000-file tree, needs about 10 s)
 
 
 class CommandHang(Exception):
@@ -148,10 +149,10 @@ def _hang(signum, frame):
     # the verdict is on CPU time the command itself consumed (an endless loop burns it); on a loaded machine the
     # wall-clock alarm alone says nothing, so it is re-armed until the command has had its share (or 15 min passed)
     cpu = time.process_time() - _HANG["cpu0"]
-    if cpu < HANG_SECONDS * 0.75 and time.monotonic() - _HANG["wall0"] < 900:
+    if cpu < HANG_CPU_SECONDS and time.monotonic() - _HANG["wall0"] < 900:
         signal.setitimer(signal.ITIMER_REAL, 30.0)
         return
-    raise CommandHang("command still running after %.0f s" % HANG_SECONDS)
+    raise CommandHang("command still running after %.0f s of CPU time" % HANG_CPU_SECONDS)
 
 
 def run(cmd, argv, cwd=None):
